@@ -41,9 +41,15 @@ def full_poly_snap(g):
 def do_case(ctx, inp):
     a = inp["ast"]
     o = build(a)
+    if inp.get("fix_self") is not None and not is_var(o):
+        # an object whose own variable was fixed AFTER construction (assume() naming the receiver's own id writes the bounds
+        # into the receiver — known finding F-C09a — and is a common way to end up with such an object): whatever state the
+        # object is in, packing and unpacking must reproduce it
+        o.assume({o.id: inp["fix_self"]})
     t = snap(o)
     is_cfg = t["cls"] == "Stingy"
-    ctx.case(inp, nontrivial=depth(t) > 1 or is_cfg, tags=tags_of(t) | ({"configurator"} if is_cfg else {"proposition"}))
+    ctx.case(inp, nontrivial=depth(t) > 1 or is_cfg, tags=tags_of(t) | ({"configurator"} if is_cfg else {"proposition"})
+             | ({"own-variable-fixed-after-construction"} if inp.get("fix_self") is not None else set()))
     # propositions: pickled whole
     s = o.to_b64()
     o2 = pg.from_b64(s)
@@ -119,10 +125,12 @@ def run(ctx):
     n = (300 if ctx.quick else 2500) * (3 if ctx.search else 1)
     for _ in range(n):
         if rng.random() < 0.5:
-            a, o, t = valid_configurator(rng, ctx.quick, int_leaf=rng.random() < 0.3, fix_root_p=0.15)
+            a, o, t = valid_configurator(rng, ctx.quick, int_leaf=rng.random() < 0.3, fix_root_p=0.15, multi_default_p=0.2)
             names = sorted(leaves_of(t))
             prio = {x: rng.choice([1, -1, 2]) for x in rng.sample(names, min(rng.randint(0, 2), len(names)))}
-            do_case(ctx, {"ast": a, "prio": prio})
+            case = {"ast": a, "prio": prio}
+            if rng.random() < 0.15: case["fix_self"] = rng.choice([1, 1, 0])
+            do_case(ctx, case)
         else:
             a, o, t = gen_valid(rng, ctx.quick, prefix_p=0.15, empty_p=0.04)
             if rng.random() < 0.3:
